@@ -31,6 +31,9 @@ struct Case {
     load: f64,
     cpu: f32,
     rules: Vec<RuleSpec>,
+    /// further rule sets loaded one after the other WITHOUT clearing in between,
+    /// each followed by another probe (reload histories)
+    more_rounds: Vec<Vec<RuleSpec>>,
     probe_inbound: bool,
     t0: u64,
 }
@@ -40,6 +43,7 @@ impl Case {
         json!({"open": self.open, "completions": self.completions, "load": self.load, "cpu": self.cpu,
             "rules": self.rules.iter().map(|r| json!({"metric": (["Load","AvgRT","Concurrency","InboundQPS","CpuUsage"][r.metric as usize]),
                 "strategy": if r.bbr {"BBR"} else {"NoAdaptive"}, "position": r.pos, "delta": r.delta})).collect::<Vec<_>>(),
+            "more_rounds": self.more_rounds.iter().map(|rs| rs.iter().map(|r| json!([r.metric, r.bbr, r.pos, r.delta])).collect::<Vec<_>>()).collect::<Vec<_>>(),
             "probe_inbound": self.probe_inbound, "t0": self.t0})
     }
 }
@@ -69,9 +73,30 @@ fn gen_case(rng: &mut Rng, base: u64) -> Case {
             delta: *rng.pick(&[0.25, 0.5, 1.0, 3.0]),
         });
     }
+    // reload histories: the next rule set differs from the previous one in one small aspect
+    let mut more_rounds = vec![];
+    let mut prev = rules.clone();
+    for _ in 0..rng.below(3) {
+        let mut next = prev.clone();
+        let k = rng.below(next.len() as u64) as usize;
+        match rng.below(4) {
+            0 => next[k].bbr = !next[k].bbr,
+            1 => next[k].pos = *rng.pick(&[-1i8, 0, 1]),
+            2 => next[k].delta = *rng.pick(&[0.25, 0.5, 1.0, 3.0]),
+            _ => {
+                let m = rng.below(5) as u8;
+                if !next.iter().any(|r| r.metric == m) {
+                    next[k].metric = m;
+                }
+            }
+        }
+        more_rounds.push(next.clone());
+        prev = next;
+    }
     Case {
         open,
         completions,
+        more_rounds,
         // exactly representable in f32 and f64 so that "equal" really is equal
         load: *rng.pick(&[0.0, 0.125, 0.25, 0.5, 0.75, 1.0]),
         cpu: *rng.pick(&[0.0f32, 0.25, 0.5, 12.5, 50.0, 99.0]),
@@ -95,6 +120,9 @@ fn run_case(case: &Case) -> Outcome {
     let mut comps = case.completions.clone();
     comps.sort_by(|a, b| b.0.cmp(&a.0)); // larger age first
     let res_hist = fresh_name("c09h");
+    // harness ledger of inbound traffic: (pass time, tokens), (completion time, rt, tokens)
+    let mut passes: Vec<(u64, u64)> = vec![];
+    let mut completes: Vec<(u64, u64, u64)> = vec![];
     for (age, rt, batch) in &comps {
         let end = probe_t - age;
         let start = end - rt;
@@ -106,6 +134,8 @@ fn run_case(case: &Case) -> Outcome {
             .expect("history entry (no rules loaded)");
         VClock::set_ms(end);
         e.exit();
+        passes.push((start, *batch as u64));
+        completes.push((end, *rt, *batch as u64));
     }
     // entries that stay open were admitted long ago (outside every window)
     VClock::set_ms(case.t0);
@@ -122,174 +152,192 @@ fn run_case(case: &Case) -> Outcome {
     system_metric::verif_set_system_load(case.load);
     system_metric::verif_set_cpu_usage(case.cpu);
 
-    // ---- observed values, computed from what the harness did (the completions
-    // were admitted `rt` earlier; a pass counts for QPS if it is inside the window)
-    let w_lo = (probe_t - probe_t % 500) - 500; // default window: two 500 ms buckets
-    let in_win = |t: u64| t - t % 500 >= w_lo;
-    let mut pass_tokens = 0u64;
-    let mut comp_tokens = 0u64;
-    let mut rt_sum = 0u64;
-    let mut min_rt = 60_000u64;
-    let mut per_bucket = [0u64; 2];
-    for (age, rt, batch) in &comps {
-        let end = probe_t - age;
-        let start = end - rt;
-        if in_win(start) {
-            pass_tokens += *batch as u64;
+    let mut sig_parts: Vec<String> = vec![];
+    let mut rounds: Vec<&Vec<RuleSpec>> = vec![&case.rules];
+    rounds.extend(case.more_rounds.iter());
+    for (round, round_rules) in rounds.iter().enumerate() {
+        // ---- observed values, computed from what the harness did
+        let w_lo = (probe_t - probe_t % 500) - 500; // default window: two 500 ms buckets
+        let in_win = |t: u64| t - t % 500 >= w_lo;
+        let pass_tokens: u64 = passes.iter().filter(|p| in_win(p.0)).map(|p| p.1).sum();
+        let mut comp_tokens = 0u64;
+        let mut rt_sum = 0u64;
+        let mut min_rt = 60_000u64;
+        let mut per_bucket = [0u64; 2];
+        for (end, rt, tokens) in &completes {
+            if in_win(*end) {
+                comp_tokens += tokens;
+                rt_sum += rt;
+                min_rt = min_rt.min(*rt);
+                per_bucket[(((end - end % 500) - w_lo) / 500) as usize] += tokens;
+            }
         }
-        if in_win(end) {
-            comp_tokens += *batch as u64;
-            rt_sum += rt;
-            min_rt = min_rt.min(*rt);
-            per_bucket[(((end - end % 500) - w_lo) / 500) as usize] += *batch as u64;
+        let qps = pass_tokens as f64; // 1 s window
+        let conc = case.open as f64;
+        let avg_rt = if comp_tokens == 0 { 0.0 } else { rt_sum as f64 / comp_tokens as f64 };
+        let best_rate = *per_bucket.iter().max().unwrap() as f64 * 2.0; // per-second rate of the best bucket
+        let capacity = best_rate * min_rt as f64 / 1000.0;
+        // cross-check with what the node reports (the statistics themselves are C02/C04's business)
+        let api = (
+            inbound.qps(MetricEvent::Pass),
+            inbound.current_concurrency() as f64,
+            inbound.avg_rt(),
+            inbound.min_rt(),
+            inbound.max_avg(MetricEvent::Complete),
+        );
+        if api != (qps, conc, avg_rt, min_rt as f64, best_rate) {
+            out.violation = Some((
+                "harness/observed-values-disagree".into(),
+                format!("round {round}: node reports (qps, conc, avg_rt, min_rt, best_rate) = {api:?}, harness ledger says {:?}", (qps, conc, avg_rt, min_rt, best_rate)),
+            ));
+            break;
         }
-    }
-    let qps = pass_tokens as f64; // 1 s window
-    let conc = case.open as f64;
-    let avg_rt = if comp_tokens == 0 { 0.0 } else { rt_sum as f64 / comp_tokens as f64 };
-    let best_rate = *per_bucket.iter().max().unwrap() as f64 * 2.0; // per-second rate of the best bucket
-    let capacity = best_rate * min_rt as f64 / 1000.0;
-    // cross-check with what the node reports (the statistics themselves are C02/C04's business)
-    let api = (
-        inbound.qps(MetricEvent::Pass),
-        inbound.current_concurrency() as f64,
-        inbound.avg_rt(),
-        inbound.min_rt(),
-        inbound.max_avg(MetricEvent::Complete),
-    );
-    if api != (qps, conc, avg_rt, min_rt as f64, best_rate) {
-        out.violation = Some((
-            "harness/observed-values-disagree".into(),
-            format!("node reports (qps, conc, avg_rt, min_rt, best_rate) = {api:?}, harness ledger says {:?}", (qps, conc, avg_rt, min_rt, best_rate)),
-        ));
-    }
-    let observed = [case.load, avg_rt, conc, qps, case.cpu as f64];
-    // ---- rules around the observed values
-    let mut rules: Vec<Arc<system::Rule>> = vec![];
-    let mut specs: Vec<(&RuleSpec, f64)> = vec![];
-    for r in &case.rules {
-        let v = observed[r.metric as usize];
-        let mut th = match r.pos {
-            -1 => v - r.delta,
-            0 => v,
-            _ => v + r.delta,
-        };
-        if th < 0.0 {
-            th = 0.0;
+        let observed = [case.load, avg_rt, conc, qps, case.cpu as f64];
+        // ---- rules around the observed values
+        let mut rules: Vec<Arc<system::Rule>> = vec![];
+        let mut specs: Vec<(&RuleSpec, f64)> = vec![];
+        for r in round_rules.iter() {
+            let v = observed[r.metric as usize];
+            let mut th = match r.pos {
+                -1 => v - r.delta,
+                0 => v,
+                _ => v + r.delta,
+            };
+            if th < 0.0 {
+                th = 0.0;
+            }
+            if r.metric == 0 && th > 1.0 {
+                th = 1.0; // load thresholds above 1.0 are not valid
+            }
+            if r.metric == 4 && th > 100.0 {
+                th = 100.0;
+            }
+            let rule = Arc::new(system::Rule {
+                metric_type: [
+                    system::MetricType::Load,
+                    system::MetricType::AvgRT,
+                    system::MetricType::Concurrency,
+                    system::MetricType::InboundQPS,
+                    system::MetricType::CpuUsage,
+                ][r.metric as usize],
+                threshold: th,
+                strategy: if r.bbr { system::AdaptiveStrategy::BBR } else { system::AdaptiveStrategy::NoAdaptive },
+                ..Default::default()
+            });
+            specs.push((r, th));
+            rules.push(rule);
         }
-        if r.metric == 0 && th > 1.0 {
-            th = 1.0; // load thresholds above 1.0 are not valid
+        // later rounds replace the previous rules directly (no clear in between)
+        system::load_rules(rules.clone());
+        // ---- the oracle, from the statement
+        let bbr_overloaded = conc > 1.0 && conc > capacity;
+        let mut tripping: Vec<(String, f64, u8, bool, f64)> = vec![];
+        for (r, th) in specs.iter() {
+            let v = observed[r.metric as usize];
+            let trips = match r.metric {
+                1 | 2 | 3 => v >= *th,
+                _ => v > *th && (!r.bbr || bbr_overloaded),
+            };
+            if trips {
+                tripping.push((String::new(), v, r.metric, r.bbr, *th));
+            }
         }
-        if r.metric == 4 && th > 100.0 {
-            th = 100.0;
-        }
-        let rule = Arc::new(system::Rule {
-            metric_type: [
-                system::MetricType::Load,
-                system::MetricType::AvgRT,
-                system::MetricType::Concurrency,
-                system::MetricType::InboundQPS,
-                system::MetricType::CpuUsage,
-            ][r.metric as usize],
-            threshold: th,
-            strategy: if r.bbr { system::AdaptiveStrategy::BBR } else { system::AdaptiveStrategy::NoAdaptive },
-            ..Default::default()
-        });
-        specs.push((r, th));
-        rules.push(rule);
-    }
-    system::load_rules(rules.clone());
-    if system::get_rules().len() != rules.len() {
-        out.violation = Some(("setup/rules-not-loaded".into(), format!("{} of {} valid rules active", system::get_rules().len(), rules.len())));
-    }
-    // ---- the oracle, from the statement
-    let bbr_overloaded = conc > 1.0 && conc > capacity;
-    let mut tripping: Vec<(String, f64)> = vec![];
-    for (k, (r, th)) in specs.iter().enumerate() {
-        let v = observed[r.metric as usize];
-        let trips = match r.metric {
-            1 | 2 | 3 => v >= *th,
-            _ => v > *th && (!r.bbr || bbr_overloaded),
-        };
-        if trips {
-            tripping.push((rules[k].id.clone(), v));
-        }
-    }
-    let expect_reject = case.probe_inbound && !tripping.is_empty();
-    let probe = EntryBuilder::new(fresh_name("c09p"))
-        .with_traffic_type(if case.probe_inbound { TrafficType::Inbound } else { TrafficType::Outbound })
-        .build();
-    if out.violation.is_none() {
+        let names = ["load", "avg-rt", "concurrency", "qps", "cpu"];
+        let expect_reject = case.probe_inbound && !tripping.is_empty();
+        let probe = EntryBuilder::new(fresh_name("c09p"))
+            .with_traffic_type(if case.probe_inbound { TrafficType::Inbound } else { TrafficType::Outbound })
+            .build();
+        let ctx = format!(
+            "round {round}: observed load={} avg_rt={avg_rt} conc={conc} qps={qps} cpu={} capacity={capacity} (bbr overloaded: {bbr_overloaded}); rules (metric,bbr,threshold) {:?}",
+            case.load,
+            case.cpu,
+            specs.iter().map(|(r, th)| (names[r.metric as usize], r.bbr, *th)).collect::<Vec<_>>()
+        );
         match &probe {
             Ok(_) => {
                 if expect_reject {
-                    let k = rules.iter().position(|x| x.id == tripping[0].0).unwrap();
-                    let m = ["load", "avg-rt", "concurrency", "qps", "cpu"][specs[k].0.metric as usize];
                     out.violation = Some((
-                        format!("decision/admitted-although-{m}-trips"),
-                        format!("observed load={} avg_rt={avg_rt} conc={conc} qps={qps} cpu={} capacity={capacity}; rules {:?}", case.load, case.cpu, specs.iter().map(|(r, th)| (r.metric, r.bbr, *th)).collect::<Vec<_>>()),
+                        format!("decision/admitted-although-{}-trips{}", names[tripping[0].2 as usize], if round > 0 { "/after-reload" } else { "" }),
+                        ctx.clone(),
                     ));
                 }
             }
             Err(e) => {
                 let txt = e.to_string();
+                // the rule named by the report, identified by its content (metric, strategy, threshold)
+                let named = ["Load", "AvgRT", "Concurrency", "InboundQPS", "CpuUsage"]
+                    .iter()
+                    .position(|m| txt.contains(&format!("metric_type: {m},")));
+                let named_bbr = txt.contains("strategy: BBR");
+                let named_th = txt.find("threshold: ").and_then(|i| {
+                    let rest = &txt[i + 11..];
+                    rest[..rest.find(',').unwrap_or(rest.len())].trim().parse::<f64>().ok()
+                });
                 if !case.probe_inbound {
                     out.violation = Some(("decision/outbound-entry-rejected".into(), txt[..txt.len().min(200)].to_string()));
                 } else if !expect_reject {
-                    let id = err_rule_id(&txt).unwrap_or_default();
-                    let k = rules.iter().position(|x| x.id == id);
-                    let m = k.map(|k| ["load", "avg-rt", "concurrency", "qps", "cpu"][specs[k].0.metric as usize]).unwrap_or("?");
+                    let m = named.map(|k| names[k]).unwrap_or("?");
                     out.violation = Some((
-                        format!("decision/rejected-although-nothing-trips/{m}"),
-                        format!("observed load={} avg_rt={avg_rt} conc={conc} qps={qps} cpu={} capacity={capacity} (bbr overloaded: {bbr_overloaded}); rules {:?}; err {}", case.load, case.cpu, specs.iter().map(|(r, th)| (r.metric, r.bbr, *th)).collect::<Vec<_>>(), &txt[..txt.len().min(160)]),
+                        format!("decision/rejected-although-nothing-trips/{m}{}", if round > 0 { "/after-reload" } else { "" }),
+                        format!("{ctx}; err {}", &txt[..txt.len().min(200)]),
                     ));
                 } else {
                     if err_block_type(&txt).as_deref() != Some("SystemFlow") {
                         out.violation = Some(("report/block-type".into(), format!("{:?}", err_block_type(&txt))));
                     }
-                    let id = err_rule_id(&txt).unwrap_or_default();
-                    match tripping.iter().find(|(tid, _)| *tid == id) {
+                    let hit = tripping.iter().find(|t| Some(t.2 as usize) == named && t.3 == named_bbr && Some(t.4) == named_th);
+                    match hit {
                         None => {
-                            out.violation = Some(("report/names-rule-that-did-not-trip".into(), format!("names {id}; tripping {tripping:?}")));
+                            out.violation = Some((
+                                format!("report/names-rule-that-did-not-trip{}", if round > 0 { "/after-reload" } else { "" }),
+                                format!("{ctx}; report names (metric {named:?}, bbr {named_bbr}, threshold {named_th:?}); tripping {:?}", tripping.iter().map(|t| (names[t.2 as usize], t.3, t.4)).collect::<Vec<_>>()),
+                            ));
                         }
-                        Some((_, v)) => {
+                        Some(t) => {
                             // snapshot_value: Some(<observed value>)
                             let snap = txt.find("snapshot_value: Some(").map(|i| {
                                 let rest = &txt[i + 21..];
                                 rest[..rest.find(')').unwrap_or(rest.len())].to_string()
                             });
-                            let ok = snap.as_ref().and_then(|s| s.parse::<f64>().ok()).map_or(false, |s| (s - v).abs() < 1e-9);
+                            let ok = snap.as_ref().and_then(|s| s.parse::<f64>().ok()).map_or(false, |s| (s - t.1).abs() < 1e-9);
                             if !ok {
-                                out.violation = Some(("report/observed-value".into(), format!("reported value {snap:?}, observed {v}")));
+                                out.violation = Some(("report/observed-value".into(), format!("reported value {snap:?}, observed {}", t.1)));
                             }
                         }
                     }
                 }
             }
         }
-    }
-    if let Ok(e) = probe {
-        e.exit();
+        let mut parts: Vec<String> = specs
+            .iter()
+            .map(|(r, _)| format!("{}{}{}", r.metric, if r.bbr { "b" } else { "n" }, r.pos))
+            .collect();
+        parts.sort();
+        sig_parts.push(format!(
+            "{}|rej{}|conc{}|over{}|hist{}",
+            parts.join(","),
+            expect_reject as u8,
+            (conc > 1.0) as u8,
+            bbr_overloaded as u8,
+            (comp_tokens > 0) as u8
+        ));
+        if let Ok(e) = probe {
+            e.exit();
+            if case.probe_inbound {
+                passes.push((probe_t, 1));
+                completes.push((probe_t, 0, 1));
+            }
+        }
+        if out.violation.is_some() {
+            break;
+        }
     }
     system::clear_rules();
     for e in open {
         e.exit();
     }
-    // every case is a boundary probe; distinct by rule shape and regime
-    let mut parts: Vec<String> = specs
-        .iter()
-        .map(|(r, _)| format!("{}{}{}", r.metric, if r.bbr { "b" } else { "n" }, r.pos))
-        .collect();
-    parts.sort();
-    out.sig = Some(format!(
-        "{}|in{}|rej{}|conc{}|over{}|hist{}",
-        parts.join(","),
-        case.probe_inbound as u8,
-        expect_reject as u8,
-        (conc > 1.0) as u8,
-        bbr_overloaded as u8,
-        (comp_tokens > 0) as u8
-    ));
+    // every case is a boundary probe; distinct by rule shapes and regimes of its rounds
+    out.sig = Some(format!("in{}|{}", case.probe_inbound as u8, sig_parts.join(">")));
     out
 }
 
